@@ -213,6 +213,7 @@ def build(ctx):
             T('tr_UDQ_vec_' + nm, [('X', 'M44')], lambda X: UnitDualQuaternion(se3(X)).vec, sampler=smp, alloc=True, tol=1e-10)
             T('tr_r2q_' + nm, [('X', 'M33')], lambda X: base.r2q(X), sampler=(lambda b, add: lambda rng: [rot_branch(rng, b, add)])(b, add), tol=1e-10)
     T('tr_UDQ_SE3', [('a', 'V8')], lambda a: mkUDQ(a).SE3().A, sampler=lambda rng: [s_udq_pair(rng)], alloc=True, tol=1e-10)
+    T('tr_UDQ_act', [('a', 'V8'), ('p', 'V3')], lambda a, p: mkUDQ(a) * p, sampler=lambda rng: [s_udq_pair(rng), rng.normal(size=3)], tol=1e-10)
     T('tr_UDQ_mul', [('a', 'V8'), ('b', 'V8')], lambda a, b: (mkUDQ(a) * mkUDQ(b)).vec, sampler=lambda rng: [s_udq_pair(rng), s_udq_pair(rng)], tol=1e-10)
     # ---- named constructors with the angle as a symbol
     ang = lambda rng: [float(rng.uniform(-3, 3))]       # noqa: E731
@@ -655,6 +656,11 @@ def oracle_embeddings(o, rng, n):
         Y = o.guard('embed:SO3->SE3:point', lambda: SE3.SO3(SO3(R3, check=False)) * p3, inp)
         if Y is not None:
             o.cmp('embed:SO3->SE3:point', np.asarray(Y).flatten(), R3 @ p3, inp, max(1.0, float(np.max(np.abs(p3)))))
+        t3 = rand_trans(rng, 1e-6, 1e6)
+        inp4 = np.r_[R3.flatten(), t3, p3]
+        Y = o.guard('embed:UDQ:point', lambda: UnitDualQuaternion(SE3(_T(R3, t3), check=False)) * p3, inp4)
+        if Y is not None:
+            o.cmp('embed:UDQ:point', np.asarray(Y).flatten(), R3 @ p3 + t3, inp4, max(1.0, float(np.max(np.abs(p3))), float(np.max(np.abs(t3)))))
         Y = o.guard('embed:UQ:point', lambda: UnitQuaternion(R3) * p3, inp)
         if Y is not None:
             o.cmp('embed:UQ:point', np.asarray(Y).flatten(), R3 @ p3, inp, max(1.0, float(np.max(np.abs(p3)))))
@@ -744,6 +750,8 @@ def oracle_constructors(o, rng, n):
             each(f'AngVec:unit-axis:{unit}', rot_from_axis_angle(v, th), np.r_[th, v], lambda cls: cls.AngVec(th * k, v, unit=unit))
             vs = v * log_uniform(rng, 1e-3, 1e3)
             each(f'AngVec:scaled-axis:{unit}', rot_from_axis_angle(v, th), np.r_[th, vs], lambda cls: cls.AngVec(th * k, vs, unit=unit))
+            vz = np.zeros(3) if i % 2 else v * 1e-20      # zero / negligible axis: the identity in every class
+            each(f'AngVec:zero-axis:{unit}', np.eye(3), np.r_[th, vz], lambda cls: cls.AngVec(th * k, vz, unit=unit))
         # EulerVec (no unit option)
         thw = float(rng.uniform(1e-3, math.pi)) if rng.random() < 0.6 else float(rng.choice([1e-9, math.pi - 1e-9, math.pi, 1e-12]))
         v = rand_unit(rng)
